@@ -341,6 +341,16 @@ def run_cases(ctx, n: int, focus: str):
                     got = eval_recorded(lam, mod, ev)
                 except Exception as e:
                     got = f"raises {type(e).__name__}: {e}"
+                    # the Python original may owe its success to a generator expression that was never consumed; the
+                    # recorded Select is examined again under deferred execution before anything is reported
+                    try:
+                        with pyworld.deferred():
+                            got2 = eval_recorded(lam, mod, ev)
+                        if got2 == exp[1]:
+                            ctx.dist["agrees under deferred execution only (generator expression never consumed)"] += 1
+                            got = got2
+                    except Exception:
+                        pass
                 if got != exp[1]:
                     bad = {"python": repr(exp[1])[:200], "recorded": repr(got)[:200]}
                     break
@@ -373,6 +383,13 @@ def run_cases(ctx, n: int, focus: str):
                         got = eval_recorded(lam, mod, ev)
                     except Exception as e:
                         got = f"raises {type(e).__name__}: {e}"
+                        try:
+                            with pyworld.deferred():
+                                got2 = eval_recorded(lam, mod, ev)
+                            if got2 == exp[1]:
+                                got = got2
+                        except Exception:
+                            pass
                     if got != exp[1]:
                         ctx.violate({"body": body, "history": hist, "at_call": repr(exp[1])[:200], "after": repr(got)[:200]},
                                     "a captured value was not frozen at the call: rebinding it afterwards changed the query's meaning")
